@@ -96,7 +96,7 @@ def rule_tbl(c, prog, d):
                 c.ok(R, inst)
             else:
                 names = sorted(k for k, v in items.items() if v in missing)
-                c.violation(R, f"domain|{p.migrate_op}|Enum.{p.dtype}", f"Enum.{p.dtype} has {len(items)} items but perform()'s {p.migrate_op} arm has no case for values {missing} ({', '.join(names[:8])}): these legacy values cannot be migrated on any path (binary read drops them, XML read errors)", fn.sp, instance=inst)
+                c.violation(R, f"domain|{p.migrate_op}|Enum.{p.dtype}|missing=" + ",".join(str(x) for x in missing), f"Enum.{p.dtype} has {len(items)} items but perform()'s {p.migrate_op} arm has no case for values {missing} ({', '.join(names[:8])}): these legacy values cannot be migrated on any path (binary read drops them, XML read errors)", fn.sp, instance=inst)
         # produced enum values exist in the target enum
         if a["enum_outputs"] and tgt.dtype_kind == "Enum":
             items = d.enums.get(tgt.dtype, (None, {}))[1]
@@ -117,7 +117,7 @@ SITES = {
 }
 
 
-def rule_sites(c, prog):
+def rule_sites(c, prog, full=True):
     R = "C15.sites"
     c.rule(R, "PropertyMigration::perform is called from exactly the four codec sites; all use migration.new_property_name as the destination; both readers migrate only when the destination is absent and never store the legacy name on that path")
     g = flow.CallGraph(prog)
@@ -200,6 +200,8 @@ def rule_sites(c, prog):
         c.ok(R, "binary-writer:new-name")
     else:
         c.violation(R, "binary-writer|name", "collect_type_info: a migrating property must be filed under the descriptors of migration.new_property_name", f.sp, instance="binary-writer:new-name")
+    if not full:
+        return
     # Err handling per site (sibling comparison, reported as a table)
     table = {}
     for s, what in SITES.items():
@@ -228,4 +230,6 @@ def run(c, prog):
     d = dbm.Database()
     rule_tbl(c, prog, d)
     rule_sites(c, prog)
+    from . import C08
+    C08.rule_own(core.Alias(c, "C15"), prog)     # binary writer: an explicit (canonical) value is looked up before any legacy alias
     c.not_decided += ["equality of the migrated values on the four paths beyond `one function produces them all`"]
